@@ -247,3 +247,45 @@ func dynCallFieldName(v ssa.Value) string {
 	}
 	return ""
 }
+
+// returnAsserts: "callsite return assert [tag] e" - e must hold, over the source-level locals, at every
+// return statement that reports success (its last result is the constant nil, or the function has no
+// error result). This is how a clause about local accumulators is tied to the accepting exits.
+func (x *Exec) returnAsserts(fr *Frame, st *State, ret *ssa.Return) {
+	if fr.fc == nil || len(fr.fc.CallSites) == 0 {
+		return
+	}
+	n := len(ret.Results)
+	if n > 0 {
+		last := ret.Results[n-1]
+		if types.Identical(last.Type(), types.Universe.Lookup("error").Type()) {
+			c, ok := last.(*ssa.Const)
+			if !ok || !c.IsNil() {
+				return
+			}
+		}
+	}
+	blk := ret.Block()
+	idx := len(blk.Instrs) - 1
+	for _, cs := range fr.fc.CallSites {
+		if cs.Callee != "return" || cs.IsUse {
+			continue
+		}
+		env := &CEnv{x: x, fr: fr, st: st, old: &fr.entry, pkg: fr.pkg, mode: x.m(), vars: map[string]Value{}, ghostsOK: fr == fr.top, goal: true}
+		env.lookup = func(n string) (Value, bool) { return x.lookupLocalAt(fr, blk, idx, st, n) }
+		tag := cs.Tag
+		if tag == "" {
+			tag = "return"
+		}
+		if cs.IsReach {
+			env.goal = false
+			g := env.evalBool(cs.Clause.Expr)
+			x.vc.obls = append(x.vc.obls, &Obl{Name: x.vc.fnName + "#callsite." + tag + ".reach", Kind: "cover", Goal: Not(And(st.Reach, g)), N: len(x.vc.items),
+				Desc: "a successful return is reachable with: " + cs.Clause.Src, Fn: x.vc.fnName, VC: x.vc, Expect: "sat", Pos: x.posOf(fr.fn, ret.Pos()), Clause: cs.Clause.Src})
+			continue
+		}
+		g := env.evalBool(cs.Clause.Expr)
+		o := x.vc.oblige("callsite."+tag, Implies(st.Reach, g), x.posOf(fr.fn, ret.Pos()), fmt.Sprintf("at a successful return: %s", cs.Clause.Src))
+		o.Clause = cs.Clause.Src
+	}
+}
